@@ -6,4 +6,6 @@ HERE="$(cd "$(dirname "$0")" && pwd)"
 mkdir -p "$HERE/.bin" "$HERE/evidence" "$HERE/replays"
 cd "$HERE/harness"
 go build -o "$HERE/.bin/vcheck" ./cmd/vcheck
+python3 maporder/patch.py "$(go env GOROOT)" "$HERE/.bin/maporder"
+go build -overlay "$HERE/.bin/maporder/overlay.json" -tags verifmap -o "$HERE/.bin/mapchild" ./cmd/mapchild
 echo "setup ok"
